@@ -25,8 +25,9 @@ REQ = "From CfdmV Require Import Common.Base C13.Model C13.Run.\nOpen Scope stri
 LIST_ATTRS = ("bounds", "climatology", "coordinates", "ancillary_variables", "geometry",
               "node_coordinates", "node_count", "part_node_count", "interior_ring", "nodes")
 MAP_ATTRS = ("cell_measures", "formula_terms", "grid_mapping")
-DIM_ATTRS = ("compress", "sample_dimension", "instance_dimension")
+DIM_ATTRS = ("compress", "sample_dimension", "instance_dimension", "dimensions")
 GEOM_ATTRS = ("node_coordinates", "node_count", "part_node_count", "interior_ring")
+UGRID_ATTRS = ("mesh", "face_coordinates", "edge_coordinates", "face_node_connectivity", "edge_node_connectivity")
 MISSING = "nope_missing"
 FOREIGN = ("zz_foreign1", "zz_foreign2")
 
@@ -69,6 +70,13 @@ def base_specs(tier):
         {"id": "e7v", "example": 7, "variants": ["second_field", "extended_grid_mapping"]},
         {"id": "e0v", "example": 0, "variants": ["second_field", "char_aux", "interval_methods"]},
         {"id": "e6v", "example": 6, "variants": ["second_field"]},
+        # third pass: compression by gathering, a string-valued scalar coordinate shared by two data
+        # variables, a grouped dataset, a domain variable, a UGRID mesh
+        {"id": "e0g", "example": 0, "variants": ["gathered"]},
+        {"id": "e0s", "example": 0, "variants": ["string_scalar"]},
+        {"id": "e1grp", "example": 1, "groups": True},
+        {"id": "e1dom", "example": 1, "domain": True, "read_kwargs": {"domain": True}},
+        {"id": "ug", "example": 0, "ugrid": True},
     ]
     return specs
 
@@ -78,7 +86,7 @@ def name_tokens(attr, value):
     """[(token index, name, role)] for the name tokens of a reference attribute."""
     toks = value.split()
     out = []
-    if attr in LIST_ATTRS or attr in DIM_ATTRS:
+    if attr in LIST_ATTRS or attr in DIM_ATTRS or attr in UGRID_ATTRS:
         return [(i, t, "name") for i, t in enumerate(toks)]
     if attr in MAP_ATTRS:
         for i, t in enumerate(toks):
@@ -104,13 +112,18 @@ def enumerate_faults(base, rng, tier):
     """All single faults of one base (dicts with cid, base, edits, foreign, meta)."""
     out = []
     raw = base["raw"]
+    spec = base.get("spec") or {}
     n = 0
     vars_by_name = {v["name"]: v for v in raw["vars"]}
     for var in raw["vars"]:
         for attr, value in var["attrs"].items():
             if value is None:
                 continue
-            if attr in LIST_ATTRS or attr in MAP_ATTRS or attr in DIM_ATTRS:
+            if attr == "dimensions" and not spec.get("domain"):
+                continue
+            if attr in UGRID_ATTRS and not spec.get("ugrid"):
+                continue
+            if attr in LIST_ATTRS or attr in MAP_ATTRS or attr in DIM_ATTRS or attr in UGRID_ATTRS:
                 for (i, name, role) in name_tokens(attr, value):
                     for kind in ("missing", "foreign", "removed"):
                         if kind == "foreign" and attr == "grid_mapping" and (role == "key" or len(value.split()) == 1):
@@ -145,7 +158,8 @@ def enumerate_faults(base, rng, tier):
                                 "base": base["id"], "foreign": kind == "foreign", "extra_vars": extra,
                                 "edits": [[var["name"], attr, nv if nv.strip() else None]],
                                 "meta": {"var": var["name"], "attr": attr, "kind": kind, "tok": i,
-                                         "old": name, "new": new, "role": role, "value": nv, "orig": value}})
+                                         "old": name, "new": new, "role": role, "value": nv, "orig": value,
+                                         "ugrid": bool(spec.get("ugrid")), "carrier_dims": var["dims"]}})
                             n += 1
             if attr in MALFORMED or attr == "cell_methods":
                 tmpl = [t.format(d0=(var["dims"] or ["x"])[0], dl=(var["dims"] or ["x"])[-1])
@@ -323,11 +337,13 @@ def oracle(case, base, row):
     bfields = {f["ncvar"]: f for f in base["read"]["fields"]}
     rfields = {f["ncvar"]: f for f in rd["fields"] if not f.get("extra")}
     old, attr, v = meta["old"], meta["attr"], meta["var"]
-    structural = attr in DIM_ATTRS or attr == "geometry"
+    structural = (attr in DIM_ATTRS or attr == "geometry" or attr in UGRID_ATTRS
+                  or (meta.get("ugrid") and attr in GEOM_ATTRS))
     # the complete list of returned fields: a variable added to the file with foreign dimensions is
     # referenced by nothing that can be mapped, so it must come back as a field of its own -
     # also when it is the replacement named by the broken token
-    if not structural and attr not in GEOM_ATTRS + ("nodes",):
+    domain_read = bool((base.get("spec") or {}).get("read_kwargs", {}).get("domain"))
+    if not structural and not domain_read and attr not in GEOM_ATTRS + ("nodes",):
         added = (list(FOREIGN) if case.get("foreign") else []) + [sp["name"] for sp in case.get("extra_vars") or []]
         got = {f["ncvar"] for f in rd["fields"]}
         for a in added:
@@ -392,12 +408,15 @@ def oracle(case, base, row):
                 if rf["cell_methods"] != bf["cell_methods"]:
                     fails.append((f"unaffected-construct-changed:{cls}:cell_method",
                                   f"field {n}: cell methods {bf['cell_methods']} -> {rf['cell_methods']}"))
-        for c in rf["constructs"]:
+        # (a compression attribute that names other existing dimensions, or fewer, can not be told from a
+        #  valid one by its names: the data then do not fit and can not be read)
+        check_data = not (structural and effective_kind(meta) != "missing")
+        for c in rf["constructs"] if check_data else ():
             for d in (c["data"], c["bounds"] and c["bounds"][1]):
                 if d and str(d[1]).startswith("ERR"):
                     fails.append((f"data-unreadable:{cls}", f"field {n}: data of {c['type']}:{c['ncvar']} "
                                   f"cannot be read: {d[1]}"))
-        if rf["data"] and str(rf["data"][1]).startswith("ERR"):
+        if check_data and rf["data"] and str(rf["data"][1]).startswith("ERR"):
             fails.append((f"data-unreadable:{cls}", f"field {n}: field data cannot be read: {rf['data'][1]}"))
         for c in [rf] + rf["constructs"]:
             for d in (c["data"], c.get("bounds") and c["bounds"][1]):
@@ -405,6 +424,9 @@ def oracle(case, base, row):
                     fails.append((f"data-aliased:{cls}", f"field {n}: the array returned for "
                                   f"{c.get('type', 'field')}:{c['ncvar']} shares memory with the construct: {d[1]}"))
         # the report
+        if not structural and not field_concerned(bf, meta, base) and rf["report"]:
+            fails.append((f"spurious-report:{cls}", f"field {n} does not contain {v} but its dataset_compliance() "
+                          f"is not empty: {rf['report'][:3]}"))
         if field_concerned(bf, meta, base) and report_expected(meta, rf):
             if not report_mentions(rf["report"], meta):
                 fails.append((f"not-reported:{cls}", f"field {n}: dataset_compliance() does not mention the broken "
@@ -417,9 +439,13 @@ def field_concerned(bf, meta, base=None):
     v = meta["var"]
     if bf["ncvar"] == v:
         return True
-    if meta["attr"] in GEOM_ATTRS and base is not None:
+    if meta["attr"] in GEOM_ATTRS and base is not None and not meta.get("ugrid"):
         # the carrying variable is a geometry container: the fields of the data variables naming it
         return any(x["name"] == bf["ncvar"] and x["attrs"].get("geometry") == v for x in base["raw"]["vars"])
+    if meta["attr"] in ("compress", "sample_dimension", "instance_dimension") and base is not None:
+        # a list / count / index variable: the fields of the data variables on the compressed dimension
+        dims = [meta["old"]] if meta["attr"] == "sample_dimension" else list(meta.get("carrier_dims") or [])
+        return any(x["name"] == bf["ncvar"] and set(x["dims"]) & set(dims) for x in base["raw"]["vars"])
     for c in bf["constructs"]:
         if c["ncvar"] == v or (c["bounds"] and c["bounds"][0] == v):
             return True
@@ -428,6 +454,11 @@ def field_concerned(bf, meta, base=None):
 
 def report_expected(meta, rf):
     k = effective_kind(meta)
+    if meta["attr"] in DIM_ATTRS:
+        # a name that is a dimension of the file, or a name left out, is not a detectable broken reference
+        return k == "missing"
+    if meta.get("ugrid"):
+        return False
     if meta["attr"] in GEOM_ATTRS and k == "foreign":
         # a part node count / interior ring variable has no parent whose dimensions it must share
         return meta["attr"] in ("node_coordinates", "node_count")
@@ -442,6 +473,9 @@ def report_expected(meta, rf):
 
 
 def report_mentions(report, meta):
+    if str(meta["var"]).startswith("/") and effective_kind(meta) == "malformed" and report:
+        # (in a grouped dataset the flattener rewrites the attribute before the reader sees it)
+        return True
     for fv, key, reason, code, att in report:
         if meta["new"] and key == meta["new"]:
             return True
@@ -465,6 +499,8 @@ def run_cases(chk, cases, bases, nworkers=12):
     payloads = [{"mode": "faults", "scratch": chk.scratch,
                  "cases": [{"cid": c["cid"], "base": c["base"], "edits": c["edits"], "foreign": c["foreign"],
                             "extra_vars": c.get("extra_vars") or [],
+                            "read_kwargs": (bases[c["base"]].get("spec") or {}).get("read_kwargs"),
+                            "external": c.get("external"),
                             "base_fields": [f["ncvar"] for f in bases[c["base"]]["read"]["fields"]]} for c in sh]} for sh in shards if sh]
     res = lib.run_workers_parallel("drive/c13.py", payloads, timeout=1500)
     rows = {}
@@ -479,6 +515,8 @@ def run_cases(chk, cases, bases, nworkers=12):
 
 def make_bases(chk):
     specs = base_specs(chk.tier)
+    if chk.tier != "thorough":
+        specs = [sp for sp in specs if sp["id"] in QUICK_BASES]
     rc, out, err = lib.run_worker("drive/c13.py", {"mode": "bases", "scratch": chk.scratch, "bases": specs})
     bases = {}
     for r in out:
@@ -486,7 +524,15 @@ def make_bases(chk):
             chk.fail("correspondence", "base-file", f"base file {r['id']} could not be written/read: "
                      f"{r.get('error') or r['read']}", {"correspondence": "drive/c13.py bases"})
             continue
+        r["spec"] = next(sp for sp in specs if sp["id"] == r["id"])
+        # bases that the Coq model does not describe (judged by the property oracle only)
+        r["raw"]["outside"] = bool(r["spec"].get("read_kwargs") or r["spec"].get("ugrid") or r["spec"].get("groups"))
         bases[r["id"]] = r
+        for f in r["read"]["fields"]:
+            if f.get("report"):
+                chk.fail("property", "spurious-report:valid-file",
+                         f"valid base file {r['id']}: dataset_compliance() of field {f['ncvar']} is not empty: "
+                         f"{f['report'][:3]}", {"input": {"base": r["id"], "edits": []}, "observed": f["report"][:6]})
     if rc != 0:
         chk.fail("correspondence", "worker-crash", f"bases worker rc={rc}: {err[-500:]}",
                  {"correspondence": "drive/c13.py"})
@@ -495,8 +541,8 @@ def make_bases(chk):
 
 # ---------------------------------------------------------------- model tie
 MODEL_ATTRS = ("bounds", "climatology", "coordinates", "cell_measures", "ancillary_variables",
-               "grid_mapping", "formula_terms", "cell_methods", "dimensions")
-OUTSIDE_ATTRS = ("compress", "sample_dimension", "instance_dimension", "geometry", "nodes", "node_coordinates",
+               "grid_mapping", "formula_terms", "cell_methods", "dimensions", "compress")
+OUTSIDE_ATTRS = ("sample_dimension", "instance_dimension", "geometry", "nodes", "node_coordinates",
                  "mesh", "location_index_set", "coordinate_interpolation", "topology_dimension", "bounds_tie_points")
 CTYPE = {"dimension_coordinate": "CDim", "auxiliary_coordinate": "CAux", "domain_ancillary": "CDomAnc",
          "cell_measure": "CMeasure", "field_ancillary": "CFieldAnc"}
@@ -542,15 +588,28 @@ def apply_edits(raw, case):
     for sp in case.get("extra_vars") or []:
         vs.append({"name": sp["name"], "dims": list(sp["dims"]), "char": sp.get("dtype") == "S1",
                    "string": sp.get("dtype") == "str", "attrs": dict(sp.get("attrs") or {})})
-    return {"vars": vs, "gattrs": gattrs}
+    dims = [d[0] for d in raw.get("dims") or []]
+    extra_dims = []
+    for v in vs:
+        for d in v["dims"]:
+            if d not in dims and d not in extra_dims:
+                extra_dims.append(d)
+    return {"vars": vs, "gattrs": gattrs, "dims": raw.get("dims") or [], "extra_dims": extra_dims,
+            "groups": raw.get("groups"), "outside": raw.get("outside")}
 
 
 def in_model_fragment(raw):
     if not str(raw["gattrs"].get("Conventions", "")).startswith("CF-1.11"):
         return False
+    if raw.get("groups") or raw.get("outside"):
+        return False
     for v in raw["vars"]:
+        if v["name"].startswith("/"):
+            return False
         for a, val in v["attrs"].items():
             if a in OUTSIDE_ATTRS:
+                return False
+            if a == "compress" and list(v["dims"]) != [v["name"]]:
                 return False
             if a in MODEL_ATTRS and not printable(val):
                 return False
@@ -566,7 +625,8 @@ def g_ads(raw):
         vs.append(f"mkVar {gstr(v['name'])} {glist(v['dims'], gstr)} {gbool(v['char'])} {gbool(v['string'])} "
                   f"{glist(attrs, lambda kv: f'({gstr(kv[0])}, {gstr(kv[1])})')}")
     ext = str(raw["gattrs"].get("external_variables", "")).split()
-    return f"(mkAds [{'; '.join(vs)}] {glist(ext, gstr)})"
+    dims = [d[0] for d in raw.get("dims") or []] + [d for d in raw.get("extra_dims") or []]
+    return f"(mkAds3 [{'; '.join(vs)}] {glist(ext, gstr)} {glist(dims, gstr)})"
 
 
 def split_reason(reason):
@@ -624,6 +684,9 @@ def signature(sig, meta):
     parts = sig.split(":")
     if parts[0] == "sibling-dropped":
         return "sibling-dropped:" + parts[1]
+    if parts[0] in ("read-raises", "read-crashes") and (meta.get("ugrid") or any(
+            a in UGRID_ATTRS for a in meta["attr"].split("+"))):
+        return parts[0] + ":ugrid"
     if parts[0] in ("read-raises", "read-crashes") and any(
             a in GEOM_ATTRS + ("geometry",) for a in meta["attr"].split("+")):
         # (for a double fault: one of the two faults is in the geometry container)
@@ -715,7 +778,71 @@ def weak_oracle(case, base, row):
     return fails
 
 
-QUICK_BASES = ("e0", "e1", "e1v", "e1g", "e2c", "e0x", "e7v", "e6", "e6v", "e3c", "e4ic")
+def external_cases(base):
+    """Reads with external files (cfdm.read(parent, external=[...])) of a base whose data variable names
+    an external cell measure: files that supply the variable (H), supply nothing (N), supply it on
+    foreign dimensions (B), or do not exist (M), in several orders, with a valid and with broken
+    external_variables attributes."""
+    dv = base["data_ncvar"]
+    ext = str(base["raw"]["gattrs"].get("external_variables", "")).split()
+    if not ext:
+        return []
+    name = ext[0]
+    H = {"vars": [name], "data": dv}
+    N = {"vars": ["zz_other"], "data": dv}
+    B = {"vars": [name], "data": dv, "baddims": True}
+    M = {"missing": True}
+    combos = [("H", [H]), ("N", [N]), ("NH", [N, H]), ("HN", [H, N]), ("HH", [H, H]), ("NN", [N, N]),
+              ("M", [M]), ("NM", [N, M]), ("HM", [H, M]), ("B", [B]), ("NB", [N, B]), ("none", [])]
+    attrs = [("valid", None), ("extra-name", f"{name} nope_ext"), ("other-name", "nope_ext"),
+             ("names-internal", f"{name} {dv}"), ("removed", "")]
+    out = []
+    for cn, combo in combos:
+        for an, av in attrs:
+            if an != "valid" and cn not in ("H", "N", "NH", "M"):
+                continue
+            edits = [] if an == "valid" else [[None, "external_variables", av or None]]
+            out.append({"base": base["id"], "foreign": False, "extra_vars": [], "edits": edits, "external": combo,
+                        "meta": {"var": None, "attr": "external_variables", "kind": "external", "tok": None,
+                                 "old": None, "new": None, "role": None, "value": f"{cn}/{an}", "orig": None,
+                                 "files": cn, "attribute": an}})
+    return out
+
+
+def external_oracle(case, base, row):
+    """External files: no exception (a file that does not exist may be refused with OSError), every
+    dataset - parent and external - closed when read returns or raises, every field still returned
+    with its data."""
+    meta = case["meta"]
+    cls = "external:" + ("missing-file" if "M" in meta["files"] else "present")
+    if "crash" in row:
+        return [(f"read-crashes:{cls}", f"the process reading the file was killed by signal {row['crash']}")]
+    rd = row.get("read")
+    if rd is None:
+        return [("harness:" + cls, "the files could not be produced: " + str(row.get("error")))]
+    fails = []
+    if rd.get("open_fds"):
+        fails.append(("file-left-open", f"{rd['open_fds']} descriptor(s) on the parent dataset still open after cfdm.read "
+                      f"(external={meta['files']}) {'raised ' + str(rd['exc']) if rd['exc'] else 'returned'}"))
+    if any(rd.get("external_fds") or []):
+        fails.append(("file-left-open", f"descriptors on the external files still open after cfdm.read "
+                      f"(external={meta['files']}): {rd['external_fds']}"))
+    if rd["exc"] is not None:
+        if not ("M" in meta["files"] and rd["exc"] in ("OSError", "FileNotFoundError")):
+            fails.append((f"read-raises:{cls}", f"cfdm.read raised {rd['exc']}: {rd['msg']} at {rd.get('where')}"))
+        return fails
+    rfields = {f["ncvar"]: f for f in rd["fields"]}
+    for bf in base["read"]["fields"]:
+        rf = rfields.get(bf["ncvar"])
+        if rf is None:
+            fails.append((f"field-lost:{cls}", f"no field for data variable {bf['ncvar']} is returned"))
+        elif rf["data"] != bf["data"]:
+            fails.append((f"field-data-changed:{cls}", f"data of {bf['ncvar']}: {bf['data']} -> {rf['data']}"))
+    return fails
+
+
+QUICK_BASES = ("e0", "e1", "e1v", "e1g", "e2c", "e0x", "e7v", "e6", "e6v", "e3c", "e4ic",
+               "e0g", "e0s", "e1grp", "e1dom", "ug")
 CORPUS = [
     # minimised earlier failures (ids as in the report): they run first
     {"base": "e1", "foreign": False, "edits": [["atmosphere_hybrid_height_coordinate", "bounds", "nope_missing"]],
@@ -751,11 +878,14 @@ def run(chk, model_ok):
         singles += enumerate_faults(bases[b], rng, chk.tier)
     randoms = []
     for b in use:
-        randoms += random_string_faults(bases[b], rng, 220 if thorough else 18)
-    doubles = double_faults(singles, rng, 3200 if thorough else 90)
+        randoms += random_string_faults(bases[b], rng, 220 if thorough else 10)
+    doubles = double_faults(singles, rng, 3200 if thorough else 70)
     corpus = [c for c in CORPUS if c["base"] in bases]
-    cases = corpus + singles + randoms + doubles
-    rows, crashed = run_cases(chk, cases, bases, nworkers=14)
+    externals = []
+    for b in use:
+        externals += external_cases(bases[b])
+    cases = corpus + singles + randoms + doubles + externals
+    rows, crashed = run_cases(chk, cases, bases, nworkers=16)
     for w, rc, err in crashed:
         chk.fail("correspondence", "worker-crash", f"C13 worker {w} ended with rc={rc}: {err}",
                  {"correspondence": "drive/c13.py"})
@@ -778,7 +908,8 @@ def run(chk, model_ok):
         if rd.get("fields"):
             counts["reported"] += any(f.get("report") for f in rd["fields"])
             counts["extra_fields"] += any(f.get("extra") for f in rd["fields"])
-        fails = (weak_oracle if meta["kind"] in ("random", "double") else oracle)(c, bases[c["base"]], r)
+        fails = (external_oracle if meta["kind"] == "external" else
+                 weak_oracle if meta["kind"] in ("random", "double") else oracle)(c, bases[c["base"]], r)
         for sig, what in fails:
             sig = signature(sig, meta)
             explained.add(c["cid"])
@@ -786,7 +917,7 @@ def run(chk, model_ok):
             chk.fail("property", sig, f"{c['base']}: {meta['var']}:{meta['attr']} = {meta['value']!r} "
                      f"({meta['kind']}): {what}"[:700],
                      {"input": {"base": c["base"], "edits": c["edits"], "foreign": c["foreign"],
-                                "extra_vars": c.get("extra_vars") or [], "meta": meta},
+                                "extra_vars": c.get("extra_vars") or [], "external": c.get("external"), "meta": meta},
                       "observed": {k: rd.get(k) for k in ("exc", "msg", "where", "open_fds")}})
 
     # ---- correspondence with the model
@@ -802,7 +933,7 @@ def run(chk, model_ok):
                     owner.append(({"base": b, "edits": [], "foreign": False, "meta": {"kind": "valid"}}, bases[b]["read"]))
         for c in cases:
             r = rows.get(c["cid"])
-            if r is None or "read" not in r or c["meta"]["kind"] == "semantic":
+            if r is None or "read" not in r or c["meta"]["kind"] in ("semantic", "external"):
                 continue
             raw = apply_edits(bases[c["base"]]["raw"], c)
             if not in_model_fragment(raw):
@@ -847,6 +978,7 @@ def run(chk, model_ok):
         "samples": [{"base": c["base"], "edits": c["edits"]} for c in (cases[0], cases[len(cases) // 2], cases[-1])],
         "bases": use,
         "single_faults": len(singles), "random_strings": len(randoms), "double_faults": len(doubles),
+        "external_reads": len(externals),
         "corpus": len(corpus),
         "traces_validated_against_impl": nfrag,
         "disagreements_checked": ncorr,
@@ -878,12 +1010,13 @@ def replay(chk, path):
         i = x.get("input")
         if i and i.get("base") in bases:
             cases.append({"base": i["base"], "edits": i["edits"], "foreign": i.get("foreign", False),
-                          "extra_vars": i.get("extra_vars") or [], "meta": i["meta"]})
+                          "extra_vars": i.get("extra_vars") or [], "external": i.get("external"), "meta": i["meta"]})
     rows, crashed = run_cases(chk, cases, bases, nworkers=4)
     nbad = 0
     for c in cases:
         r = rows.get(c["cid"], {})
-        fails = (weak_oracle if c["meta"]["kind"] in ("random", "double") else oracle)(c, bases[c["base"]], r)
+        fails = (external_oracle if c["meta"]["kind"] == "external" else
+                 weak_oracle if c["meta"]["kind"] in ("random", "double") else oracle)(c, bases[c["base"]], r)
         print(("FAIL " if fails else "ok   ") + f"{c['base']} {c['edits']}")
         for sig, what in fails:
             print("     ", signature(sig, c["meta"]), what[:300])
